@@ -115,7 +115,17 @@ class Layout:
         os.symlink(os.path.join(out, "evil.parquet"), os.path.join(self.root, "data", "file_link.parquet"))
         os.symlink(os.path.join(self.root, "data"), os.path.join(self.root, "in_link"))
         os.symlink("../../../../../../outside", os.path.join(self.root, "metadata", "rel_out"))
-        if via_symlink:
+        if via_symlink == "dotdot":
+            # the root spelled through a symlinked directory followed by '..': the OS resolves '<base>/hop/../root' to the table
+            # (hop -> .../d/root2, '..' -> .../d), while collapsing the '..' lexically would give '<base>/root' - somewhere else entirely
+            hop = os.path.join(self.base, "hop")
+            os.symlink(os.path.join(self.parent, "root2"), hop)
+            self.location = os.path.join(self.base, "hop", "..", "root")
+            assert os.path.realpath(self.location) == os.path.realpath(self.root)
+            # opened the way an application opens 'its' table (create-or-open): it exists, so nothing may be created anywhere
+            self.t = datashard.create_table(self.location, make_schema(FIELDS))
+            self.misplaced = sorted(os.listdir(os.path.join(self.base, "root"))) if os.path.lexists(os.path.join(self.base, "root")) else None
+        elif via_symlink:
             lnk = os.path.join(self.base, "lnk")
             os.symlink(self.root, lnk)
             self.location = lnk
@@ -332,6 +342,11 @@ def run_paths(task):
     install_hook()
     with scratch_dir("c17") as d:
         L = Layout(d, task["via_symlink"])
+        if getattr(L, "misplaced", None) is not None:
+            res.case(key="root-spelling|create_table", nontrivial=True, labels=["escaping", "root-spelling"])
+            res.violation("outside-access/root-spelling/create_table", f"create_table({'<base>/hop/../root'!r}) (hop -> a sibling directory: the OS resolves the path to the existing table) created {L.misplaced[:4]} under "
+                          f"'<base>/root', the lexically collapsed path - outside the table's canonical root", {"kind": "path", "ep": "create_table", "path": "", "via_symlink": "dotdot"})
+            return res
         comps = COMPONENTS if task["depth"] <= 2 else SHORT
         paths = gen_paths(L, task["depth"], comps)
         eps = task["eps"]
@@ -455,6 +470,8 @@ def run_tampered(task):
             continue
         with scratch_dir("c17t") as d:
             L = Layout(d, task["via_symlink"])
+            if getattr(L, "misplaced", None) is not None:
+                continue  # reported by the path enumeration of the same root spelling
             target = _subst(L, tg)
             tamper(L, what, target)
             outcome, val, events = monitored(L, lambda: do_action(L, act))
@@ -625,6 +642,8 @@ def plan(tier, seed):
         ns = 3 if tier == "quick" else 2
         for s in range(ns):
             tasks.append({"kind": "tamper", "via_symlink": via, "shard": s, "nshard": ns})
+    tasks.append({"kind": "paths", "depth": 2, "eps": STORAGE_EPS + DFM_EPS, "via_symlink": "dotdot", "shard": 0, "nshard": 1})
+    tasks.append({"kind": "tamper", "via_symlink": "dotdot", "shard": 0, "nshard": 1})
     for s in range(3):
         tasks.append({"kind": "late", "shard": s, "nshard": 3})
     ns = 4 if tier == "quick" else 16
@@ -684,6 +703,8 @@ def replay(case):
     with scratch_dir("c17r") as d:
         L = Layout(d, case.get("via_symlink", False))
         tmp = Result()
+        if case.get("ep") == "create_table" and case.get("via_symlink") == "dotdot":
+            return [{"bucket": "outside-access/root-spelling/create_table", "what": f"created {L.misplaced[:4]} under the lexically collapsed path"}] if getattr(L, "misplaced", None) is not None else []
         if case["kind"] == "late":
             r = run_late_symlinks({"shard": 0, "nshard": 1})
             return [{"bucket": v["bucket"], "what": v["what"]} for v in r.violations if v["case"].get("ep") == case["ep"] and v["case"].get("dir") == case["dir"]][:1]
